@@ -41,15 +41,15 @@ TIERS = {
         build=dict(MaxStages=1, Horizon=16, KMax=6, Wide='FALSE', MaxDerive=3),
         rows=1600, chunk=200),
     'thorough': dict(
-        cases=dict(MaxStages=4, Horizon=20, KMax=6, Wide='FALSE', MaxDerive=1),
-        cases2=dict(MaxStages=2, Horizon=24, KMax=6, Wide='TRUE', MaxDerive=1),
+        cases=dict(MaxStages=4, Horizon=16, KMax=6, Wide='FALSE', MaxDerive=1),
+        cases2=dict(MaxStages=2, Horizon=12, KMax=6, Wide='TRUE', MaxDerive=1),
         laws=dict(MaxStages=3, Horizon=16, KMax=6, Wide='FALSE', MaxDerive=1),
         pull=dict(MaxStages=2, Horizon=24, KMax=6, Wide='FALSE', MaxDerive=1),
         pull2=dict(MaxStages=1, Horizon=24, KMax=6, Wide='TRUE', MaxDerive=1),
         pull3=dict(MaxStages=3, Horizon=16, KMax=6, Wide='FALSE', MaxDerive=1),     # safety laws only
         pulldump=dict(MaxStages=2, Horizon=16, KMax=6, Wide='FALSE', MaxDerive=1),
         build=dict(MaxStages=1, Horizon=16, KMax=6, Wide='FALSE', MaxDerive=4),
-        rows=20000, chunk=1250),
+        rows=12000, chunk=800),
 }
 
 
@@ -218,9 +218,7 @@ def judge_terminal(kind, t, xs, r):
         want = xs
         got = [L.enc(x) for x in r['v']] if type(r['v']) is list else L.enc(r['v'])
     if got != want:
-        # (own clause for the one open finding: the matched item is the SKIP / STOP object itself and the
-        #  call returned something that is no stream item at all)
-        clause = 'first:sentinel-item' if (kind == 'first' and want.get('k') == 'sent' and got.get('k') == 'opaque') else kind
+        clause = kind
         return clause, '%s(%s) returned %s, predicted %s' % (kind, t.get('p', ''), got, want)
     if r['pulled'] > t['demLA']:
         return 'laziness', '%s() pulled %d source events, DemandLA=%d' % (kind, r['pulled'], t['demLA'])
@@ -506,11 +504,8 @@ def validate_trace(check, rows, label, chunk):
 
 # ---- findings ------------------------------------------------------------------------------------------
 def match_finding(f, case):
-    """one open finding: first(key) whose first matching item is the SKIP / STOP object itself returns the
-    pipeline's iterator (clause first:sentinel-item is only given when the predicted value is a sentinel and
-    the returned object is no stream item); everything else is a VIOLATION"""
-    m = f.get('match', {})
-    return m.get('clause') == 'first:sentinel-item' and case.get('clause') == 'first:sentinel-item'
+    """no known finding is open for C17: every disagreement with the law is a VIOLATION"""
+    return False
 
 
 # ---- main -------------------------------------------------------------------------------------------------
@@ -667,6 +662,7 @@ def main(tier, seed):
         'stage keys / subspecs come from a fixed function library (inc, skip_odd, stop_at2, dup, mod2, item0, len, lt2, odd, notnone, even, isempty, T), each in the spellings a glom spec can take (callable, T expression, path string, tuple, Spec, Check for filter); pipelines in which a key raises (x[0] / len(x) on a wrong item) are ill-typed and skipped, also under filter, where glom turns the error into SKIP',
         'ill-typed pipelines (flatten over a non-iterable, unique / set-separator split over an unhashable item anywhere inside the horizon) are outside the law and skipped; exceptions are not compared',
         'split(maxsplit=0) (boltons yields the iterator itself) and string items are outside the universe',
+        'SKIP / STOP are control values: a pipeline in which the SKIP or STOP object itself travels as an ordinary stream item (produced by a .map function) is outside the contract and skipped like an ill-typed one; there glom differs from the plain composition: glom([1], Iter().map(lambda x: SKIP).first(lambda x: True)) returns the map iterator (a tuple step yielding SKIP is skipped), glom([1], Iter().map(lambda x: SKIP).filter(lambda x: True).all()) == [] (filter tests "result is not SKIP")',
         'sentinels are small ints / None, for which identity and equality coincide',
         'infinite sources are looked at up to Horizon items; a request whose DemandLA lies beyond it is not judged',
         'the look-ahead allowed on top of Demand is the documented one: size-1 items for windowed (filled at creation), step-1 items for slice with a step',
